@@ -155,8 +155,12 @@ void prop_c10(hz::Ctx &ctx) {
     std::vector<std::string> bad;
     for (auto &mn : all_mnemonics()) { bad.push_back(mn + "x"); bad.push_back(mn + mn.substr(mn.size() - 1)); if (mn.size() > 2) bad.push_back(mn.substr(0, mn.size() - 1)); bad.push_back("x" + mn); bad.push_back(mn.substr(1)); }
     for (auto b : {"foo", "movs", "mul", "div", "idiv", "loop", "int3", "hlt", "leave", "cmpxchg", "bswap", "popcnt", "andn", "pext", "vpaddx", "zzz", "a", "jz5"}) bad.push_back(b);
+    // characters that are neither letters nor digits in front of, inside and behind a known mnemonic ('!' and below count as blanks,
+    // ';' and '%' start a comment, ':' makes a label, ',' and ' ' separate)
+    { size_t k = 0; for (auto &mn : all_mnemonics()) { for (char ch : std::string("\"#$&'()*+-./<=>?@[\\]^_`{|}~")) { if ((k++ + ctx.seed) % (ctx.thorough() ? 1 : 5)) continue; bad.push_back(std::string(1, ch) + mn); bad.push_back(mn + std::string(1, ch)); if (mn.size() > 1) bad.push_back(mn.substr(0, 1) + std::string(1, ch) + mn.substr(1)); } }
+      for (auto l : {"5mov", "0ret", "9add", "1x"}) bad.push_back(l); }
     for (auto &b : bad) {
-      if (b.empty() || known.count(b) || !isalpha((unsigned char)b[0])) continue;
+      if (b.empty() || known.count(b) || (isdigit((unsigned char)b[0]) && b.find_first_not_of("0123456789") == std::string::npos)) continue;
       if (b.find("section") != std::string::npos || b.find("global") != std::string::npos) continue;
       static const char *tails[] = {" rax, rbx", " rax", "", " [rax], 5", " xmm1, xmm2"};
       RejCase c; c.group = "unknown-mnemonic"; c.mn = b; c.form = ""; c.bad = b + tails[rng.below(5)];
